@@ -298,6 +298,26 @@ func Tick(site int) {
 	g.tick(t, uint64(site)|2<<40, site, false)
 }
 
+// busiestFrame names the live function activation that has executed the most loop iterations: when the total
+// budget runs out, that is the loop that does not end (the innermost function at that instant is arbitrary).
+func (t *Task) busiestFrame() string {
+	best := -1
+	var n uint64
+	for i := range t.frames {
+		if t.frames[i].n > n {
+			n = t.frames[i].n
+			best = i
+		}
+	}
+	if best < 0 {
+		if len(t.frames) > 0 {
+			return fnName(t.frames[len(t.frames)-1].fn)
+		}
+		return "?"
+	}
+	return fnName(t.frames[best].fn)
+}
+
 func (g *Group) fail(v any) {
 	g.aborted = true
 	g.abort = v
@@ -334,13 +354,7 @@ func (g *Group) tick(t *Task, code uint64, id int, isFn bool) {
 		}
 	}
 	if g.Ticks > g.cfg.TickBudget && g.cfg.TickBudget > 0 {
-		name := ""
-		if isFn {
-			name = fnName(id)
-		} else if id < len(TickNames) {
-			name = TickNames[id]
-		}
-		g.fail(BudgetExceeded{Kind: "ticks", Fn: name})
+		g.fail(BudgetExceeded{Kind: "ticks", Fn: t.busiestFrame()})
 	}
 	if g.Ticks&0x3fff == 0 && g.cfg.ByteBudget > 0 {
 		var ms runtime.MemStats
@@ -353,17 +367,15 @@ func (g *Group) tick(t *Task, code uint64, id int, isFn bool) {
 			g.PeakBytes = live
 		}
 		if live > g.cfg.ByteBudget && !g.aborted {
-			name := ""
-			if isFn {
-				name = fnName(id)
-			} else if id < len(TickNames) {
-				name = TickNames[id]
-			}
-			g.fail(BudgetExceeded{Kind: "bytes", Fn: name})
+			g.fail(BudgetExceeded{Kind: "bytes", Fn: t.busiestFrame()})
 		}
 	}
-	if isFn && sched != nil {
-		sched.maybeYieldAtEntry(t)
+	if sched != nil {
+		if isFn {
+			sched.maybeYieldAtEntry(t)
+		} else {
+			sched.maybeYieldAtLoop(t)
+		}
 	}
 }
 
